@@ -8,6 +8,8 @@ or model class is ever instantiated: calls to in-package classes fold to an
 inert `Inst` record.
 """
 import ast
+import datetime as _dt
+import re as _re
 import itertools
 import operator
 
@@ -46,8 +48,30 @@ def _next(it, default=_NO_DEFAULT):
     return next(it) if default is _NO_DEFAULT else next(it, default)
 
 
+_EXTERNAL_TYPES = {"numbers.Number": None, "collections.abc.Mapping": dict, "collections.OrderedDict": dict,
+                   "datetime.timedelta": None}
+
+
 def _isinstance(v, t):
-    ts = t if isinstance(t, tuple) else (t,)
+    ts = t if isinstance(t, tuple) and not (len(t) == 2 and t[0] == "external") else (t,)
+
+    def conv(x):
+        if isinstance(x, tuple) and len(x) == 2 and x[0] == "external" and x[1] in _EXTERNAL_TYPES:
+            import importlib
+            mod_, _, nm = x[1].rpartition(".")
+            return getattr(importlib.import_module(mod_), nm)          # stdlib type, used for isinstance only
+        return x
+    ts = tuple(conv(x) for x in ts)
+    if any(isinstance(x, ClassRef) for x in ts):
+        # in-package classes: decided on class-backed stubs / instances by the MRO
+        for x in ts:
+            if isinstance(x, ClassRef):
+                c = getattr(v, "cls", None)
+                if c is not None and hasattr(c, "is_subclass_of") and (c is x.cls or c.is_subclass_of(x.cls)):
+                    return True
+            elif isinstance(x, type) and isinstance(v, x):
+                return True
+        return False
     if not all(isinstance(x, type) for x in ts):
         raise AnalysisError("constfold: isinstance against a non-builtin type")
     return isinstance(v, ts)
@@ -63,15 +87,35 @@ _BUILTINS = {
 }
 _SAFE_METHODS = {
     str: {"join", "lower", "upper", "strip", "lstrip", "rstrip", "split", "replace", "startswith",
-          "endswith", "format", "isdigit", "ljust", "rjust", "zfill", "title", "find", "count", "isspace"},
+          "endswith", "format", "isdigit", "ljust", "rjust", "zfill", "title", "find", "count", "isspace",
+          "splitlines", "partition", "rpartition", "rsplit", "isalpha", "isalnum", "casefold", "index", "rfind",
+          "isnumeric", "isdecimal", "encode", "center", "capitalize", "swapcase", "isupper", "islower"},
+    bytes: {"decode"},
+    _re.Match: {"group", "groups", "start", "end", "span", "groupdict"},
     dict: {"items", "keys", "values", "get", "copy", "update", "setdefault", "pop"},
     list: {"append", "extend", "index", "count", "copy", "insert", "pop", "sort", "reverse"},
     tuple: {"index", "count"},
     float: {"is_integer", "hex", "as_integer_ratio"},
+    _dt.timedelta: {"total_seconds"},
     int: {"bit_length"},
     set: {"add", "union", "update", "copy", "discard"},
     frozenset: {"union"},
 }
+
+
+_RE_FUNCS = ("match", "search", "fullmatch", "findall", "sub", "split", "finditer", "subn")
+
+
+def _re_apply(name, args, kw):
+    """a stdlib regular-expression function on folded (concrete) strings: pure"""
+    args = [a.pattern if isinstance(a, RegexConst) else a for a in args]
+    if not all(isinstance(a, (str, int)) or callable(a) for a in args):
+        raise AnalysisError(f"constfold: re.{name} on a non-constant argument")
+    try:
+        r = getattr(_re, name)(*args, **kw)
+    except _re.error as ex:
+        raise FoldRaise(f"re.error: {ex}", "error")
+    return list(r) if name == "finditer" else r
 
 
 class Unknown:
@@ -159,7 +203,17 @@ class Stub:
     def __bool__(self):
         if "__list__" in self.attrs:
             return bool(self.attrs["__list__"])
+        if self.cls is not None and (self.cls.find_method("__bool__") is not None or self.cls.find_method("__len__") is not None):
+            # the class defines its own truth value: Python's default would be a wrong answer, not a refusal
+            raise AnalysisError(f"constfold: truth value of {self!r} is defined by its class (not folded)")
         return True
+
+    def __deepcopy__(self, memo):
+        import copy
+        new = Stub(self.name, None, self.methods, self.cls)      # the class and the rule's stand-in methods are shared
+        memo[id(self)] = new
+        new.attrs = copy.deepcopy(self.attrs, memo)
+        return new
 
     def __iter__(self):
         if "__list__" in self.attrs:
@@ -202,6 +256,12 @@ class ClassRef:
 class FoldRaise(AnalysisError):
     """the folded code executed a `raise` statement (or an operation of it raised)"""
     exc_name = None
+    exc_args = None
+
+    def __init__(self, msg="", exc_name=None):
+        super().__init__(msg)
+        if exc_name is not None:
+            self.exc_name = exc_name
 
 
 class _Break(Exception):
@@ -362,7 +422,7 @@ class Folder:
             raise _Continue()
         elif isinstance(st, ast.Assert):
             if not self._eval(st.test, e):
-                raise FoldRaise("AssertionError")
+                raise FoldRaise("AssertionError", "AssertionError")
         elif isinstance(st, ast.Pass):
             pass
         elif isinstance(st, ast.FunctionDef):
@@ -413,6 +473,14 @@ class Folder:
             fr = FoldRaise(f"raise {ast.unparse(st.exc)[:60] if st.exc is not None else ''}")
             exc = st.exc.func if isinstance(st.exc, ast.Call) else st.exc
             fr.exc_name = exc.id if isinstance(exc, ast.Name) else (exc.attr if isinstance(exc, ast.Attribute) else None)
+            fr.exc_args = None
+            if isinstance(st.exc, ast.Call) and not st.exc.keywords:
+                try:
+                    fr.exc_args = self._elts(st.exc.args, e)      # the message the program built
+                except FoldRaise:
+                    raise
+                except AnalysisError:
+                    fr.exc_args = None
             raise fr
         else:
             raise AnalysisError(f"constfold: unsupported statement {type(st).__name__}")
@@ -515,6 +583,11 @@ class Folder:
                 if m is None:
                     raise AnalysisError("constfold: enum member lookup failed")
                 return m
+            if isinstance(obj, Stub) and "__list__" in obj.attrs:
+                m = obj.cls.find_method("__getitem__") if obj.cls is not None else None
+                if m is not None:
+                    return self.call_function(m, [self._eval(x.slice, e)], {}, self_value=obj)
+                return obj.attrs["__list__"][self._eval(x.slice, e)]
             if not isinstance(obj, (dict, list, tuple, str)):
                 raise AnalysisError(f"constfold: subscript on {type(obj).__name__}")
             return obj[self._eval(x.slice, e)]
@@ -597,7 +670,12 @@ class Folder:
                 m = obj.cls.find_method(x.attr)
                 if m is not None and m.kind == "property":
                     return self.call_function(m, [], {}, self_value=obj)
+                if m is not None:
+                    return ("bound", m, obj)
             raise AnalysisError(f"constfold: attribute {x.attr} of {obj!r}")
+        import datetime as _dt
+        if isinstance(obj, _dt.timedelta) and x.attr in ("days", "seconds", "microseconds"):
+            return getattr(obj, x.attr)
         if isinstance(obj, EnumClass):
             m = obj.by_name(x.attr)
             if m is None:
@@ -670,6 +748,15 @@ class Folder:
                 args = self._elts(x.args, e)
                 kw = {k.arg: self._eval(k.value, e) for k in x.keywords}
                 return self.call_function(m, args, kw, self_value=selfv)
+            if isinstance(f.value, ast.Name) and f.value.id == "list" and not e.has("list") \
+                    and f.attr in ("__getitem__", "__len__", "__iter__", "__contains__", "__add__", "__mul__", "append", "extend"):
+                args = self._elts(x.args, e)
+                if args and isinstance(args[0], Stub) and "__list__" in args[0].attrs:
+                    rest = [a.attrs["__list__"] if isinstance(a, Stub) and "__list__" in a.attrs else a for a in args[1:]]
+                    try:
+                        return getattr(list, f.attr)(args[0].attrs["__list__"], *rest)    # the inherited list behaviour
+                    except IndexError as ex:
+                        raise FoldRaise(f"IndexError: {ex}", "IndexError")
             obj = self._eval(f.value, e)
             if isinstance(obj, Stub):
                 args = self._elts(x.args, e)
@@ -679,7 +766,35 @@ class Folder:
                 m = obj.cls.find_method(f.attr) if obj.cls is not None else None
                 if m is not None:
                     return self.call_function(m, args, kw, self_value=obj)
+                if "__list__" in obj.attrs and f.attr in _SAFE_METHODS[list] | {"clear", "remove"}:
+                    if f.attr == "extend":
+                        args = [list(args[0])]
+                    return getattr(obj.attrs["__list__"], f.attr)(*args, **kw)     # inherited from list
                 raise AnalysisError(f"constfold: method {f.attr} of {obj!r}")
+            if isinstance(obj, Inst) and obj.cls.find_method(f.attr) is not None \
+                    and obj.cls.find_method(f.attr).kind == "method":
+                # a method of a freshly constructed in-package object: construct it for real first
+                st = getattr(obj, "_stub", None)
+                if st is None:
+                    st = Stub(obj.cls.name, {}, cls=obj.cls)
+                    init = obj.cls.find_method("__init__")
+                    if init is not None:
+                        try:
+                            self.call_function(init, list(obj.args), dict(obj.kwargs), self_value=st)
+                        except FoldRaise:
+                            raise
+                        except AnalysisError:
+                            # the constructor is outside the evaluator: an object WITHOUT state - a method
+                            # that reads an attribute is refused, one that does not is unaffected
+                            st.attrs.clear()
+                    obj._stub = st
+                args = self._elts(x.args, e)
+                kw = {k.arg: self._eval(k.value, e) for k in x.keywords}
+                return self.call_function(obj.cls.find_method(f.attr), args, kw, self_value=st)
+            if isinstance(obj, RegexConst) and f.attr in _RE_FUNCS:
+                args = self._elts(x.args, e)
+                kw = {k.arg: self._eval(k.value, e) for k in x.keywords}
+                return _re_apply(f.attr, [obj.pattern] + args, dict(kw, flags=obj.flags))
             if isinstance(obj, (ClassRef, EnumClass, Inst)):
                 tgt = self._attr(f, e)
                 return self._apply(tgt, x, e)
@@ -689,6 +804,28 @@ class Folder:
                     kw = {k.arg: self._eval(k.value, e) for k in x.keywords}
                     return getattr(obj, f.attr)(*args, **kw)
             raise AnalysisError(f"constfold: method {f.attr} on {type(obj).__name__}")
+        if isinstance(f, ast.Name) and f.id in ("getattr", "setattr", "hasattr") and not e.has(f.id) and x.args:
+            args = self._elts(x.args, e)
+            obj, name = args[0], args[1]
+            if not isinstance(name, str):
+                raise AnalysisError("constfold: reflective access with a non-constant name")
+            probe = ast.Attribute(value=ast.Name(id="__reflect__", ctx=ast.Load()), attr=name, ctx=ast.Load())
+            ee = e.child()
+            ee.set("__reflect__", obj)
+            if f.id == "setattr":
+                if not isinstance(obj, Stub):
+                    raise AnalysisError("constfold: setattr on a non-stub object")
+                obj.attrs[name] = args[2]
+                return None
+            try:
+                v = self._attr(probe, ee)
+            except AnalysisError:
+                if f.id == "hasattr":
+                    return False
+                if len(args) > 2:
+                    return args[2]
+                raise
+            return True if f.id == "hasattr" else v
         if isinstance(f, ast.Name):
             if e.has(f.id):
                 return self._apply(e.get(f.id), x, e)
@@ -707,6 +844,8 @@ class Folder:
                 if f.id in ("zip", "enumerate", "reversed", "range"):
                     r = list(r)
                 return r
+        if isinstance(f, (ast.Call, ast.Subscript, ast.IfExp)):
+            return self._apply(self._eval(f, e), x, e)      # the callee is itself computed
         raise AnalysisError(f"constfold: unsupported call {ast.unparse(x)[:80]}")
 
     def _external(self, dotted, x, e):
@@ -714,13 +853,26 @@ class Folder:
         kw = {k.arg: self._eval(k.value, e) for k in x.keywords}
         if dotted == "re.compile":
             return RegexConst(args[0], args[1] if len(args) > 1 else kw.get("flags", 0))
+        if dotted.startswith("re.") and dotted[3:] in _RE_FUNCS:
+            return _re_apply(dotted[3:], args, kw)
         if dotted in ("xml.sax.saxutils.escape", "xml.sax.saxutils.unescape", "xml.sax.saxutils.quoteattr",
                       "html.escape", "html.unescape"):
             import importlib
             mod_, _, fn_ = dotted.rpartition(".")
             return getattr(importlib.import_module(mod_), fn_)(*args, **kw)   # stdlib, pure
+        if dotted in ("collections.defaultdict",) and len(args) <= 1 and not kw:
+            import collections
+            if not args or args[0] in (list, dict, int, set, str):
+                return collections.defaultdict(*args)
+            if isinstance(args[0], (ClassRef, FuncRef)) or (isinstance(args[0], tuple) and args[0][:1] in (("lambda",), ("closure",))):
+                empty = ast.Call(func=ast.Name(id="__factory__", ctx=ast.Load()), args=[], keywords=[])
+                tgt = args[0]
+                return collections.defaultdict(lambda: self._apply(tgt, empty, e))
+        if dotted in ("collections.OrderedDict",):
+            return dict(*args, **kw)         # insertion ordered, like every dict of the supported interpreters
         if dotted in ("fractions.Fraction", "decimal.Decimal", "math.floor", "math.ceil", "textwrap.fill", "textwrap.wrap",
-                      "math.trunc", "copy.copy", "copy.deepcopy"):
+                      "math.trunc", "copy.copy", "copy.deepcopy", "datetime.timedelta", "math.isclose", "math.fabs",
+                      "unicodedata.normalize", "unicodedata.category", "unicodedata.combining", "string.capwords"):
             import importlib
             mod_, _, fn_ = dotted.rpartition(".")
             return getattr(importlib.import_module(mod_), fn_)(*args, **kw)   # stdlib, pure
@@ -762,7 +914,11 @@ class Folder:
                 return obj
             return Inst(tgt.cls, args, kw)
         if isinstance(tgt, FuncRef):
+            if tgt.fn.cls is not None and tgt.fn.kind in ("method", "property") and args:
+                return self.call_function(tgt.fn, args[1:], kw, self_value=args[0])     # Class.method(obj, ...)
             return self.call_function(tgt.fn, args, kw)
+        if isinstance(tgt, tuple) and tgt and tgt[0] == "bound":
+            return self.call_function(tgt[1], args, kw, self_value=tgt[2] if tgt[1].kind != "staticmethod" else None)
         if isinstance(tgt, tuple) and tgt and tgt[0] == "closure":
             _, fdef, env = tgt
             ee = env.child()
@@ -784,6 +940,9 @@ class Folder:
             for p, a in zip([a.arg for a in lam.args.args], args):
                 ee.set(p, a)
             return self._eval(lam.body, ee)
+        import types
+        if isinstance(tgt, types.FunctionType):
+            return tgt(*args, **kw)          # a stand-in supplied by the rule's stub (folded code cannot make one)
         raise AnalysisError(f"constfold: call of {type(tgt).__name__}")
 
     def _exc_subclass(self, name, handler_names, e):
@@ -799,6 +958,8 @@ class Folder:
     def call_value(self, tgt, args):
         """apply a folded callable (lambda, nested function, function reference) to Python values;
         for stub methods that receive callbacks"""
+        if isinstance(tgt, tuple) and tgt and tgt[0] == "bound":
+            return self.call_function(tgt[1], list(args), {}, self_value=tgt[2] if tgt[1].kind != "staticmethod" else None)
         if isinstance(tgt, tuple) and tgt and tgt[0] == "lambda":
             _, lam, env = tgt
             ee = env.child()
@@ -874,7 +1035,7 @@ class Folder:
         except (KeyError, IndexError, ValueError, TypeError, ZeroDivisionError, AttributeError) as exc:
             if self._depth == 1:
                 # the folded program itself raised: an outcome of the fold, not a checker crash
-                raise FoldRaise(f"{type(exc).__name__}: {exc}")
+                raise FoldRaise(f"{type(exc).__name__}: {exc}", type(exc).__name__)
             raise
         finally:
             self._depth -= 1
